@@ -155,7 +155,8 @@ class RefStage(object):
             if self.kind == 'precompute':
                 refdata.run_precompute(
                     self.ref, out, self.tmp, n_processors=self.n_proc,
-                    rows_at_a_time=self.params.get('rows_at_a_time', 4))
+                    rows_at_a_time=self.params.get('rows_at_a_time', 4),
+                    copy_data_over=self.params.get('copy_data_over', False))
                 obs['digest'] = refdata.digest_h5(out)
             elif self.kind == 'refmarkers':
                 refdata.run_reference_markers(
@@ -258,6 +259,8 @@ def stage_catalog(tier):
         MappingStage('mapping_direct_4x3', 8, 2, 3, 'direct'),
         RefStage('precompute_2', 'precompute', 2, n_workers=2),
         RefStage('precompute_3', 'precompute', 3, n_workers=3),
+        RefStage('precompute_2_copy', 'precompute', 2, n_workers=2,
+                 copy_data_over=True),
         RefStage('pmask_4x2', 'pmask', 2, n_per=6, n_workers=4),
         RefStage('pmask_4x3', 'pmask', 3, n_per=6, n_workers=4),
         RefStage('refmarkers_2', 'refmarkers', 2),
